@@ -101,10 +101,13 @@ func (e *Env) metricTables(l *facts.Level, fv *types.Var, m *spec.Metric) {
 
 	// --- parser ----------------------------------------------------------------
 	ps := parsersOf(l.Pkg.Types, T)
-	if len(ps) != 1 {
-		c.Fail("parse", who, pos, fmt.Sprintf("expected exactly one parser func(string) %s, found %d", en.Name(), len(ps)))
-	} else {
-		g := ps[0]
+	if len(ps) == 0 {
+		c.Fail("parse", who, pos, fmt.Sprintf("no parser func(string) %s found", en.Name()))
+	}
+	for _, g := range ps { // every exported way of parsing a code of this metric must obey the tables
+		if !g.Exported() && len(ps) > 1 {
+			continue
+		}
 		gpos := e.P.Pos(g.Pos())
 		// domain: every string in a table the parser reads, every specification code, "", lower-case variant, other
 		strs := map[string]bool{"": true}
